@@ -3,7 +3,8 @@
    checker evaluates on every generated case.  Any field (section hypothesis), 3 <> 0. *)
 From Coq Require Import ZArith List Bool Ring Field Lia ZifyBool Arith.
 Import ListNotations.
-Require Import MV.Lib.Base MV.C08.Ops MV.C08.Gen MV.C08.Model MV.C08.Proofs_Struct MV.C08.Proofs_Dual MV.C08.Proofs_Graph.
+Require Import MV.Lib.Base MV.C08.Ops MV.C08.Gen MV.C08.Model MV.C08.Proofs_Struct MV.C08.Proofs_Dual MV.C08.Proofs_Graph
+  MV.C08.Proofs_Cover.
 Open Scope Z_scope.
 
 Section Mass.
@@ -117,5 +118,11 @@ Proof.
     - apply Nat.eqb_eq. apply Hc. apply Hl. left. reflexivity. }
   apply G. auto.
 Qed.
+
+(* ... in particular on every oriented manifold surface with a consistent edge list (list-level conditions only) *)
+Theorem edge_mass_total_manifold (V : list (vec T)) (F : list face) (E : list edge) :
+  surface_manifold_ok F E = true ->
+  total O (mass_edges O false V F E) = sumT O (areas O V F).
+Proof. intros H. apply edge_mass_total. apply manifold_edge_cover. exact H. Qed.
 
 End Mass.
